@@ -9,9 +9,13 @@ import (
 	"os"
 	"os/exec"
 	"sort"
+	"strings"
 	"sync"
+	"syscall"
 	"time"
 )
+
+const failBudget = 20
 
 // job/result framing between the parent and its worker processes: one JSON object per line.
 type job struct {
@@ -60,6 +64,17 @@ func runPool(mode string, vecs []json.RawMessage, workers int, outPath, tracePat
 	var wg sync.WaitGroup
 	var mu sync.Mutex
 	hangs := 0
+	// once failBudget cases have timed out or killed their worker, no more cases are fed: the workers
+	// are killed and what was found is reported (a hanging parser must not cost a watchdog period per text)
+	abort := make(chan struct{})
+	bump := func() {
+		mu.Lock()
+		hangs++
+		if hangs == failBudget {
+			close(abort)
+		}
+		mu.Unlock()
+	}
 	for w := 0; w < workers; w++ {
 		var mine []int
 		for i := w; i < len(vecs); i += workers {
@@ -69,30 +84,36 @@ func runPool(mode string, vecs []json.RawMessage, workers int, outPath, tracePat
 		go func(mine []int) {
 			defer wg.Done()
 			for len(mine) > 0 {
-				mu.Lock()
-				tooMany := hangs > 48
-				mu.Unlock()
+				tooMany := false
+				select {
+				case <-abort:
+					tooMany = true
+				default:
+				}
 				if tooMany {
 					for _, i := range mine {
 						results[i] = &result{ID: i, R: json.RawMessage(`{"ret":"skipped","verdict":"skipped"}`), Trace: synthTrace(tracePath, i, vecs[i], "skipped")}
 					}
 					return
 				}
-				done, fatal, stop := runWorker(mode, vecs, mine, results)
+				done, fatal, stop := runWorker(mode, vecs, mine, results, abort)
 				mine = mine[done:]
 				if stop == "hang" {
-					mu.Lock()
-					hangs++
-					mu.Unlock()
+					bump()
+				}
+				if stop == "aborted" {
+					continue
 				}
 				if len(mine) > 0 && fatal != "" {
 					// the worker ended without an answer for the next case
-					b, _ := json.Marshal(map[string]string{"ret": "crash", "verdict": "crash", "err": fatal})
+					verdict := "crash"
+					if strings.Contains(fatal, "DATA RACE") {
+						verdict = "data-race" // reported by the Go race detector (binary built with -race, GORACE=halt_on_error=1)
+					}
+					b, _ := json.Marshal(map[string]string{"ret": "crash", "verdict": verdict, "err": fatal})
 					results[mine[0]] = &result{ID: mine[0], R: b, Trace: synthTrace(tracePath, mine[0], vecs[mine[0]], "crash")}
 					mine = mine[1:]
-					mu.Lock()
-					hangs++
-					mu.Unlock()
+					bump()
 				}
 			}
 		}(mine)
@@ -148,9 +169,10 @@ func synthTrace(tracePath string, id int, vec json.RawMessage, ret string) []jso
 
 // runWorker starts one worker on the cases mine[...]; returns how many cases were answered
 // and, when the worker ended early without saying why, what is known about its end.
-func runWorker(mode string, vecs []json.RawMessage, mine []int, results []*result) (int, string, string) {
+func runWorker(mode string, vecs []json.RawMessage, mine []int, results []*result, abort chan struct{}) (int, string, string) {
 	cmd := exec.Command(os.Args[0], "child", mode)
 	cmd.Env = os.Environ()
+	cmd.SysProcAttr = &syscall.SysProcAttr{Pdeathsig: syscall.SIGKILL} // a worker never outlives this process
 	stdin, _ := cmd.StdinPipe()
 	stdout, _ := cmd.StdoutPipe()
 	var stderr bytes.Buffer
@@ -185,10 +207,14 @@ func runWorker(mode string, vecs []json.RawMessage, mine []int, results []*resul
 		var ok bool
 		select {
 		case line, ok = <-lines:
-		case <-time.After(30 * time.Second):
+		case <-abort:
+			cmd.Process.Kill() // SIGKILL: the worker may be spinning
+			cmd.Wait()
+			return done, "", "aborted"
+		case <-time.After(10 * time.Second):
 			cmd.Process.Kill()
 			cmd.Wait()
-			return done, "worker silent for 30s (process-level hang)", ""
+			return done, "worker silent for 10s (process-level hang)", ""
 		}
 		if !ok {
 			break
@@ -216,8 +242,8 @@ func runWorker(mode string, vecs []json.RawMessage, mine []int, results []*resul
 			msg += ": " + err.Error()
 		}
 		tail := stderr.String()
-		if len(tail) > 1500 {
-			tail = tail[:1500]
+		if len(tail) > 2500 {
+			tail = tail[:2500]
 		}
 		return done, msg + "\n" + tail, ""
 	}
@@ -243,6 +269,15 @@ func (l *limitWriter) Write(p []byte) (int, error) {
 
 // childLoop runs in a worker: one job per input line, one result per output line.
 func childLoop(handle func(id int, v json.RawMessage) result) {
+	parent := os.Getppid()
+	go func() { // a worker whose parent is gone ends itself, also while a parse spins
+		for {
+			time.Sleep(300 * time.Millisecond)
+			if os.Getppid() != parent {
+				os.Exit(3)
+			}
+		}
+	}()
 	sc := bufio.NewScanner(os.Stdin)
 	sc.Buffer(make([]byte, 1<<20), maxLine)
 	out := bufio.NewWriterSize(os.Stdout, 1<<16)
